@@ -280,6 +280,14 @@ def pack(st, v, t):
             if sort_of(v.t) == sort_of(t):
                 return v.e
         raise TypeError('cannot pack %r as %r' % (v, t))
+    if isinstance(v, TupV) and k == 'list' and v.cls is None:
+        # Row abstraction: index rows (tuples / lists) are sequences of ints; the container type of a row
+        # is not observable by the modelled operations (len, indexing, iteration)
+        S = sort_of(t)
+        arr = z3.K(z3.IntSort(), pack(st, v.items[0], t.args[0])) if v.items else fresh_const('row', z3.ArraySort(z3.IntSort(), sort_of(t.args[0])))
+        for i, x in enumerate(v.items):
+            arr = z3.Store(arr, i, pack(st, x, t.args[0]))
+        return S.mk(arr, z3.IntVal(len(v.items)))
     if isinstance(v, TupV):
         if k != 'tuple' or len(t.args) != len(v.items) or (t.name or None) != (v.cls or None):
             raise TypeError('cannot pack tuple %r as %r' % (v, t))
